@@ -136,6 +136,31 @@ let gc_enum nmax emax hmax depth =
   done;
   Printf.eprintf "gc_enum: %d scripts, %d distinct states\n" !emitted (Hashtbl.length seen)
 
+(* ---------- raw engine scripts (C03) ---------- *)
+let parse_eop line =
+  match split_ws line with
+  | "node" :: ds -> ENode (List.map (fun d -> nat_of_int (int_of_string d)) ds)
+  | ["adddep"; n; m] -> EAddDep (nat_of_int (int_of_string n), nat_of_int (int_of_string m))
+  | "txn" :: fs ->
+    ETxn (List.map (fun f -> match String.split_on_char ':' f with
+        | [n; v] -> (nat_of_int (int_of_string n), nat_of_int (int_of_string v))
+        | _ -> failwith "bad fire") fs)
+  | _ -> failwith ("bad engine op: " ^ line)
+
+let run_eng_script orig oc (name, lines) =
+  Printf.fprintf oc "# %s\n" name;
+  let gr = ref [] in
+  List.iter (fun line ->
+      let (g1, out) = estep orig !gr (parse_eop line) in
+      gr := g1;
+      match out with
+      | None -> Printf.fprintf oc "ok n=%d\n" (List.length g1)
+      | Some (lg, fires) ->
+        let fs = List.mapi (fun i f -> match f with Some v -> Printf.sprintf "%d:%d" i (int_of_nat v) | None -> "") fires in
+        Printf.fprintf oc "log=[%s] fire=[%s]\n" (ints lg) (String.concat " " (List.filter (fun x -> x <> "") fs)))
+    lines;
+  Printf.fprintf oc "---\n"
+
 (* seeded random valid gc scripts (all choices from one PRNG state) *)
 let gc_rand seed count maxlen nmax emax hmax =
   Random.init seed;
@@ -217,6 +242,10 @@ let () =
       (int_of_string emax) (int_of_string hmax)
   | _ :: "gc-family" :: kind :: n :: keep :: _ ->
     gc_family kind (int_of_string n) (keep = "live")
+  | _ :: "eng-run" :: _ ->
+    List.iter (run_eng_script false stdout) (read_scripts stdin)
+  | _ :: "eng-run-orig" :: _ ->
+    List.iter (run_eng_script true stdout) (read_scripts stdin)
   | _ :: "gc-run" :: _ ->
     List.iter (run_gc_script stdout) (read_scripts stdin)
   | _ :: "gc-enum" :: n :: e :: h :: d :: _ ->
